@@ -240,6 +240,9 @@ def child_env(mod, tier):
         alt + [str(ROOT), str(DEPS)] + ([env["PYTHONPATH"]] if env.get("PYTHONPATH") else [])
     )
     env["PYTHONDONTWRITEBYTECODE"] = "1"
+    # one BLAS/OpenMP/numba thread per worker: the parallelism is across worker processes
+    for k in ("OMP_NUM_THREADS", "OPENBLAS_NUM_THREADS", "MKL_NUM_THREADS", "NUMBA_NUM_THREADS", "NUMEXPR_NUM_THREADS"):
+        env[k] = "1"
     env["VERIF_TIER"] = tier
     env["COGENT3_VERIF"] = "1"
     extra = dict(getattr(mod, "ENV", {}))
